@@ -334,6 +334,170 @@ theorem corrupt_detected (C : Codec) (r r' : Repo) (n m : Nat) (sid : ID) (t : L
     · exact Or.inr h1
   · exact Or.inl hok
 
+/-! ### iterator facts used for the streaming check -/
+
+theorem next_value_full (hash : Bytes → ID) (dec zdec : Bytes → Option Bytes) (it it' : Iter)
+    (b : Blob) (p : Bytes) (h : next hash dec zdec it = (.value b p none, it')) :
+    ∃ rest, it.blobs = b :: rest ∧ it.cur ≤ b.offset ∧ nonceSize < b.length ∧
+      (b.offset - it.cur) + b.length ≤ it.rd.length ∧
+      decodeBlob dec zdec b.ulen ((it.rd.drop (b.offset - it.cur)).take b.length) = some p ∧
+      hash p = b.id ∧
+      it' = { rd := (it.rd.drop (b.offset - it.cur)).drop b.length, cur := b.offset + b.length, blobs := rest } := by
+  unfold next at h
+  repeat' split at h
+  all_goals simp_all [decodeBlob]
+  all_goals grind
+
+theorem next_single_of_decode (hash : Bytes → ID) (dec zdec : Bytes → Option Bytes) (b : Blob)
+    (buf p : Bytes) (hl : buf.length = b.length) (hn : nonceSize < b.length)
+    (hd : decodeBlob dec zdec b.ulen buf = some p) (hh : hash p = b.id) :
+    (next hash dec zdec { rd := buf, cur := b.offset, blobs := [b] }).1 = .value b p none := by
+  unfold next
+  unfold decodeBlob at hd
+  simp only [Nat.lt_irrefl, if_false, Nat.sub_self, List.drop_zero, hl, Nat.not_lt.mpr (Nat.zero_le _)]
+  have h1 : ¬ b.length ≤ nonceSize := by omega
+  simp only [h1, if_false, List.take_of_length_le (Nat.le_of_eq hl)]
+  cases hdd : dec buf with
+  | none => simp [hdd] at hd
+  | some pt =>
+    simp only [hdd] at hd ⊢
+    by_cases hu : b.ulen ≠ 0
+    · simp only [hu, if_true, ne_eq, not_false_eq_true] at hd ⊢
+      simp [hd, hh]
+    · simp only [hu, if_false] at hd ⊢
+      simp at hd
+      simp [hd, hh]
+
+theorem next_eof_blobs (hash : Bytes → ID) (dec zdec : Bytes → Option Bytes) (it it' : Iter)
+    (h : next hash dec zdec it = (.eof, it')) : it.blobs = [] := by
+  cases hb : it.blobs with
+  | nil => rfl
+  | cons e rest =>
+    exfalso
+    unfold next at h
+    rw [hb] at h
+    simp only at h
+    repeat' split at h
+    all_goals (first | cases h | (simp only [Prod.mk.injEq, reduceCtorEq, false_and] at h))
+
+theorem streamClean_all (C : Codec) (bytes : Bytes) :
+    ∀ (f : Nat) (it : Iter), it.rd = bytes.drop it.cur → streamClean C f it = true →
+      ∀ b ∈ it.blobs, b.offset + b.length ≤ bytes.length ∧
+        ∃ p, (next C.hash C.dec C.zdec { rd := (bytes.drop b.offset).take b.length, cur := b.offset, blobs := [b] }).1 =
+          .value b p none := by
+  intro f
+  induction f with
+  | zero => intro it _ h; simp [streamClean] at h
+  | succ f ih =>
+    intro it hrd h b hb
+    unfold streamClean at h
+    cases hn : next C.hash C.dec C.zdec it with
+    | mk out it' =>
+      simp only [hn] at h
+      cases out with
+      | eof =>
+        have := next_eof_blobs C.hash C.dec C.zdec it it' hn
+        rw [this] at hb; cases hb
+      | value b0 p0 e =>
+        cases e with
+        | some e' => simp at h
+        | none =>
+          simp only at h
+          obtain ⟨rest, hbl, hcur, hnl, hlen, hdec, hh, hit'⟩ := next_value_full C.hash C.dec C.zdec it it' b0 p0 hn
+          have hdrop : it.rd.drop (b0.offset - it.cur) = bytes.drop b0.offset := by
+            rw [hrd, List.drop_drop]; congr 1; omega
+          have hrl : it.rd.length = bytes.length - it.cur := by rw [hrd]; simp
+          have hfit : b0.offset + b0.length ≤ bytes.length := by omega
+          rw [hbl] at hb
+          rcases List.mem_cons.mp hb with hb | hb
+          · subst hb
+            refine ⟨hfit, p0, ?_⟩
+            rw [hdrop] at hdec
+            apply next_single_of_decode C.hash C.dec C.zdec b _ p0 _ hnl hdec hh
+            simp; omega
+          · apply ih it' ?_ h b
+            · rw [hit']; exact hb
+            · rw [hit']; simp only; rw [hdrop, List.drop_drop]
+      | overlapping => simp at h
+      | discardEOF => simp at h
+      | readEOF => simp at h
+      | invalidLength => simp at h
+
+
+/-! ### the streaming transcription of `checkPackInner` implies the ranged verdict -/
+
+theorem checkPackStream_entries (C : Codec) (r : Repo) (p : ID × Bytes) (hp : checkPackStream C r p = true)
+    (c : PackedBlob) (hc : c ∈ r.index) (hpk : c.pack = p.1)
+    (hfind : r.packs.find? (fun q => q.1 == c.pack) = some p) : (decodeEntry C r c).isSome := by
+  unfold checkPackStream at hp
+  simp only [Bool.and_eq_true] at hp
+  have hmem : c.blob ∈ packBlobsSorted r p.1 := by
+    unfold packBlobsSorted
+    rw [List.mem_mergeSort]
+    exact List.mem_map.mpr ⟨c, List.mem_filter.mpr ⟨hc, by simp [hpk]⟩, rfl⟩
+  obtain ⟨hfit, q, hq⟩ := streamClean_all C p.2 _ { rd := p.2, cur := 0, blobs := packBlobsSorted r p.1 }
+    (by simp) hp.1 c.blob hmem
+  unfold decodeEntry readReply
+  simp only [hfind]
+  have hlen : ((p.2.drop c.blob.offset).take c.blob.length).length = c.blob.length := by
+    simp; omega
+  simp only [readAt, hlen, Nat.lt_irrefl, if_false, List.take_of_length_le (Nat.le_of_eq hlen), hq]
+  rfl
+
+/-- a clean verdict of the streaming check is a clean verdict of the ranged check -/
+theorem checkAllStream_nil (C : Codec) (r : Repo) (f : Nat) (h : checkAllStream C r f = []) :
+    checkAll C r f = [] := by
+  unfold checkAllStream at h
+  simp only [List.append_eq_nil_iff, List.map_eq_nil_iff, List.filter_eq_nil_iff] at h
+  obtain ⟨⟨⟨h1, h2⟩, h3⟩, h4⟩ := h
+  unfold checkAll
+  simp only [List.append_eq_nil_iff, List.map_eq_nil_iff, List.filter_eq_nil_iff]
+  refine ⟨⟨⟨⟨h1, h2⟩, ?_⟩, ?_⟩, h4⟩
+  · intro p hp
+    have := h3 p hp
+    simp only [Bool.not_eq_true, Bool.not_eq_false'] at this
+    unfold checkPackStream at this
+    simp only [Bool.and_eq_true, beq_iff_eq] at this
+    simp [this.2]
+  · intro c hc
+    have hex := h2 c hc
+    simp only [Bool.not_eq_true, Bool.not_eq_false', List.any_eq_true] at hex
+    cases hfind : r.packs.find? (fun q => q.1 == c.pack) with
+    | none =>
+      obtain ⟨q, hq, hqe⟩ := hex
+      have := List.find?_eq_none.mp hfind q hq
+      simp [hqe] at this
+    | some p =>
+      have hpm := List.mem_of_find?_eq_some hfind
+      have hpe := List.find?_some hfind
+      simp only [beq_iff_eq] at hpe
+      have hps := h3 p hpm
+      simp only [Bool.not_eq_true, Bool.not_eq_false'] at hps
+      have := checkPackStream_entries C r p hps c hc hpe.symm hfind
+      cases hd : decodeEntry C r c with
+      | none => simp [hd] at this
+      | some _ => simp
+
+/-- `check_ok_restore_same` for the streaming transcription of `check --read-data` -/
+theorem check_stream_ok_restore_same (C : Codec) (r r' : Repo) (n m : Nat) (sid : ID) (t : List RTree)
+    (h : restoreSnap C r n sid = some t) (hok : checkAllStream C r' m = [])
+    (hl : (r'.snaps.find? (fun s => s.1 == sid)).isSome) :
+    restoreSnap C r' m sid = some t ∨ Collision C.hash :=
+  check_ok_restore_same C r r' n m sid t h (checkAllStream_nil C r' m hok) hl
+
+/-- `corrupt_detected` for the streaming transcription -/
+theorem corrupt_detected_stream (C : Codec) (r r' : Repo) (n m : Nat) (sid : ID) (t : List RTree)
+    (h : restoreSnap C r n sid = some t)
+    (hl : (r'.snaps.find? (fun s => s.1 == sid)).isSome)
+    (hdep : restoreSnap C r' m sid ≠ some t) :
+    checkAllStream C r' m ≠ [] ∨ Collision C.hash := by
+  by_cases hok : checkAllStream C r' m = []
+  · rcases check_stream_ok_restore_same C r r' n m sid t h hok hl with h1 | h1
+    · exact absurd h1 hdep
+    · exact Or.inr h1
+  · exact Or.inl hok
+
+
 /-! ### single-site classes that `check --read-data` always reports (`mustReport`) -/
 
 theorem modified_pack_reported (C : Codec) (r' : Repo) (f : Nat) (name bytes bytes' : Bytes)
